@@ -12,11 +12,11 @@
 EXTENDS Integers, Sequences, Bitwise
 
 Poly  == 25578747          \* 0x1864CFB
-Top   == 16777216          \* 2^24
+Two24   == 16777216          \* 2^24
 Mask  == 16777215          \* 2^24 - 1
 
 \* one shift of the LFSR: multiply the 24-bit remainder by x modulo Poly
-Shift1(c) == LET d == 2 * c IN IF d >= Top THEN d ^^ Poly ELSE d
+Shift1(c) == LET d == 2 * c IN IF d >= Two24 THEN d ^^ Poly ELSE d
 
 \* feed one byte, bit-serial (the definition)
 ByteBitwise(c, b) ==
